@@ -6,6 +6,7 @@
 package fixture
 
 import (
+	"encoding/json"
 	"errors"
 	"slices"
 	"strconv"
@@ -445,4 +446,52 @@ func badWorkListRange(root *node) int {
 		work = append(work, x.kids...)
 	}
 	return n
+}
+
+// ---- decode destinations
+
+type item struct {
+	ID   string
+	Size int
+}
+
+// goodDecodeFresh decodes every element into a variable of its own.
+func goodDecodeFresh(raws []json.RawMessage) ([]item, error) {
+	var out []item
+	for _, raw := range raws {
+		var it item
+		if err := json.Unmarshal(raw, &it); err != nil {
+			return nil, err
+		}
+		out = append(out, it)
+	}
+	return out, nil
+}
+
+// goodDecodeReset re-uses one variable and clears it first.
+func goodDecodeReset(raws []json.RawMessage) ([]item, error) {
+	var out []item
+	var it item
+	for _, raw := range raws {
+		it = item{}
+		if err := json.Unmarshal(raw, &it); err != nil {
+			return nil, err
+		}
+		out = append(out, it)
+	}
+	return out, nil
+}
+
+// badDecodeShared decodes every element into the same variable: members absent from an element keep the
+// previous element's values.
+func badDecodeShared(raws []json.RawMessage) ([]item, error) {
+	var out []item
+	var it item
+	for _, raw := range raws {
+		if err := json.Unmarshal(raw, &it); err != nil {
+			return nil, err
+		}
+		out = append(out, it)
+	}
+	return out, nil
 }
